@@ -339,10 +339,13 @@ impl Scenario for PairScn {
                                     let ra = [info_balance(w, &p.assets[0], &rcv), info_balance(w, &p.assets[1], &rcv)];
                                     let got = [ra[0] - rb[0], ra[1] - rb[1]];
                                     self.oracle_roundtrip(cx, h, res, d, got);
-                                    if self.stable_amp.is_some() {
+                                    if let Some(amp) = self.stable_amp {
                                         if let Some((r2, s2)) = reserves(w, h) {
                                             if s2 > 0 {
-                                                self.oracle_lp_value(cx, h, a, res, supply, r2, s2);
+                                                // a round trip through a deposit that is explained by the known raw-amount
+                                                // LP mint (unequal decimals) belongs to that finding
+                                                let known = h.pair.decimals[0] != h.pair.decimals[1] && refmath::explained_by_raw_invariant(amp, res, [res[0] + d[0], res[1] + d[1]], supply, minted);
+                                                self.oracle_lp_value_sig(cx, h, a, res, supply, r2, s2, if known { Some("unequal-decimals-deposit") } else { Some("") });
                                             }
                                         }
                                     }
@@ -564,6 +567,11 @@ impl PairScn {
     /// LP value never decreases: CP → sqrt(R0*R1)/S ; stableswap → D(normalised)/S.
     #[allow(clippy::too_many_arguments)]
     fn oracle_lp_value(&self, cx: &mut Cx, h: &H, a: &Act, r0: [u128; 2], s0: u128, r1: [u128; 2], s1: u128) {
+        self.oracle_lp_value_sig(cx, h, a, r0, s0, r1, s1, None)
+    }
+
+    #[allow(clippy::too_many_arguments)]
+    fn oracle_lp_value_sig(&self, cx: &mut Cx, h: &H, a: &Act, r0: [u128; 2], s0: u128, r1: [u128; 2], s1: u128, sig_override: Option<&str>) {
         if !self.lp_oracles() {
             return;
         }
@@ -595,11 +603,19 @@ impl PairScn {
                     lhs = (d1 + sd) * b(s0);
                     cx.count("stable:slope_dust_used");
                 }
-                let sig = if h.pair.decimals[0] != h.pair.decimals[1] && matches!(a, Act::Provide { .. }) {
+                let sig = if h.pair.decimals[0] != h.pair.decimals[1]
+                    && matches!(a, Act::Provide { .. })
+                    && lhs < rhs
+                    && s1 > s0
+                    && r1[0] >= r0[0]
+                    && r1[1] >= r0[1]
+                    && refmath::explained_by_raw_invariant(amp, r0, r1, s0, s1 - s0)
+                {
                     "unequal-decimals-deposit"
                 } else {
                     ""
                 };
+                let sig = sig_override.unwrap_or(sig);
                 cx.check_sig("lp_value.non_decreasing", sig, lhs >= rhs, || {
                     format!("{:?}: D_norm/S fell: reserves {:?} S {} (D {}) -> reserves {:?} S {} (D {})", a, r0, s0, d0, r1, s1, d1)
                 });
@@ -635,7 +651,11 @@ impl PairScn {
                     let sd = refmath::slope_dust_norm(amp, &[res[0], res[1]], &h.pair.decimals);
                     rhs = b(supply) * ((d1 + sd).saturating_sub(d0_lo));
                 }
-                let sig = if h.pair.decimals[0] != h.pair.decimals[1] { "unequal-decimals-deposit" } else { "" };
+                let sig = if h.pair.decimals[0] != h.pair.decimals[1] && lhs > rhs && refmath::explained_by_raw_invariant(amp, res, [res[0] + d[0], res[1] + d[1]], supply, minted) {
+                    "unequal-decimals-deposit"
+                } else {
+                    ""
+                };
                 cx.check_sig("deposit.mints_at_most_invariant_growth", sig, lhs <= rhs, || {
                     format!("deposit {:?} into {:?} supply {}: minted {} but D_norm {} -> {}", d, res, supply, minted, d0, d1)
                 });
